@@ -17,6 +17,11 @@ Phigh == << <<192, 224, 65>>, <<0, 255>> >>
 Proot == <<>>
 NamePats == {Plow, Pup, Pmix, Paa, Pedge, Phigh, Proot}
 CasePats == {Plow, Pup, Pmix, Paa}
+(* an OUT-OF-ZONE name for the relative modes (origin CD): it stays absolute next to in-zone names that become
+   relative, and its canonical wire form (2 a a 1 b ...) sorts BEFORE every in-zone pattern (2 a a 2 c d ...),
+   whereas an order that ranks "relative before absolute" or ignores the origin puts it last *)
+Pout  == << <<97, 97>>, <<98>> >>                         \* aa.b
+MixedSets == {<<Plow, Pout>>, <<Pout, Pmix>>, <<Paa, Pout>>, <<Pout>>}
 
 SlotCount(segs) == Cardinality({i \in 1..Len(segs) : segs[i][1] = "n"})
 Fill(segs, f) == [i \in 1..Len(segs) |-> IF segs[i][1] = "n" THEN <<"n", f[NameIdx(segs, i)]>> ELSE segs[i]]
@@ -38,7 +43,8 @@ Singletons == {5, 6, 30, 39, 47}       \* CNAME SOA NXT DNAME NSEC: at most one 
 RRsetPats(T) ==
     IF SlotCount(T.segs) = 0 THEN {<<Plow>>}
     ELSE IF T.t \in Singletons THEN {<<p>> : p \in CasePats}
-    ELSE {<<p>> : p \in CasePats} \cup {<<p, q>> : p \in CasePats, q \in CasePats}
+    ELSE {<<p>> : p \in CasePats} \cup {<<p, q>> : p \in CasePats, q \in CasePats} \cup MixedSets
+         \cup (IF T.key \in Deep3 THEN {<<Pup, Pout, Paa>>, <<Pout, Plow, Pout>>} ELSE {})
          \cup (IF T.key \in Deep3 \/ (Thorough /\ T.impl /\ T.t \in DOMAIN CanonTable /\ SlotCount(T.segs) = 1)
                THEN {<<p, q, r>> : p \in CasePats, q \in CasePats, r \in CasePats} ELSE {})
 SigOf(T, labels, signer) ==
@@ -49,8 +55,15 @@ SigCasesOf(TS) ==
     UNION {UNION {UNION {{[k |-> "sig", key |-> T.key, t |-> T.t, c |-> T.c, owner |-> o,
                            rrs |-> [i \in 1..Len(ps) |-> FillAll(T.segs, ps[i])], sg |-> SigOf(T, lb, s)] :
                                lb \in 0..(Len(o) + 1), s \in SigSignersFor(ps)} : ps \in RRsetPats(T)} : o \in SigOwners} : T \in TS}
-SigCases == SigCasesOf(Templates)
-SigPart(i) == SigCasesOf({T \in Templates : T.t % 4 = i})     \* the same universe in four parts (parallel emission)
+(* two-name types: the origin of the relative modes itself next to the root in the second slot ("@ ." and "@ @"
+   in zone-file terms) - two different RRs whose names coincide once the origin is left out *)
+Pcd == << <<67, 68>> >>
+OriginVsRoot(TS) ==
+    {[k |-> "sig", key |-> T.key, t |-> T.t, c |-> T.c, owner |-> Pmix,
+      rrs |-> <<Fill(T.segs, <<Pcd, Proot>>), Fill(T.segs, <<Pcd, Pcd>>)>>, sg |-> SigOf(T, 2, Pcd)] :
+        T \in {U \in TS : SlotCount(U.segs) = 2 /\ U.t \notin Singletons}}
+SigCases == SigCasesOf(Templates) \cup OriginVsRoot(Templates)
+SigPart(i) == LET TS == {T \in Templates : T.t % 4 = i} IN SigCasesOf(TS) \cup OriginVsRoot(TS)     \* the same universe in four parts (parallel emission)
 
 (* ---- key tags and DS ---- *)
 Rep(c, n) == [i \in 1..n |-> c]
@@ -87,6 +100,9 @@ Org == << <<69, 120>> >>                                \* Ex.
 NodeName(k) == CASE k = "apex" -> Org
                  [] k = "a"    -> << <<97>> >> \o Org
                  [] k = "ba"   -> << <<98>>, <<97>> >> \o Org
+                 [] k = "am"   -> << <<97, 45>> >> \o Org               \* "a-": continues the label of a with an octet below '.'
+                                                                       \* (2D < 2E): canonically AFTER b.a, before it in any
+                                                                       \* order on dot-joined text
                  [] k = "C"    -> << <<67>> >> \o Org                   \* upper-case owner: sorts after b.a
                  [] k = "d"    -> << <<100>> >> \o Org                  \* delegation
                  [] k = "gd"   -> << <<103>>, <<100>> >> \o Org         \* glue below it
@@ -124,14 +140,17 @@ Menu(k) ==
       [] k = "gd"   -> IF Thorough THEN {<<"A">>, <<"A", "NS">>} ELSE {<<"A">>}
       [] k = "gD"   -> {<<"A">>}
       [] k = "ba"   -> {<<"TXT">>}
+      [] k = "am"   -> {<<"TXT">>}
       [] k = "C"    -> {<<"A">>}
       [] k = "hgd"  -> {<<"A">>}
       [] k = "xy"   -> {<<"A">>}
       [] k = "ww"   -> {<<"TXT">>}
-Optional == IF Thorough THEN {"a", "ba", "C", "d", "gd", "gD", "hgd", "xy", "ww"} ELSE {"a", "ba", "C", "d", "gd", "gD", "xy", "ww"}
-NodeOrder == <<"ww", "gD", "d", "a", "hgd", "apex", "xy", "gd", "C", "ba">>     \* deliberately not canonical
+Optional == IF Thorough THEN {"a", "ba", "am", "C", "d", "gd", "gD", "hgd", "xy", "ww"} ELSE {"a", "ba", "am", "C", "d", "gd", "gD", "xy", "ww"}
+NodeOrder == <<"am", "ww", "gD", "d", "a", "hgd", "apex", "xy", "gd", "C", "ba">>     \* deliberately not canonical
 (* the other-case glue only together with its cut and instead of the same-case glue (bounds the count) *)
-NodeSetOk(X) == "gD" \in X => ("d" \in X /\ "gd" \notin X)
+NodeSetOk(X) == /\ "gD" \in X => ("d" \in X /\ "gd" \notin X)
+                (* the label-prefix sibling only next to the descendant it must sort after (bounds the count) *)
+                /\ "am" \in X => ("ba" \in X /\ "gD" \notin X /\ "C" \notin X /\ "xy" \notin X)
 (* several RRSIG rdatasets (different covered types) at one owner, inserted in either order: RFC 8976 3.3.1 orders
    RRs of one owner and type by canonical RDATA, and RRSIG RDATA starts with the type covered *)
 SigOrderExtras == {<<<<"apex", "SIGSOA">>, <<"apex", "SIGNS">>>>, <<<<"apex", "SIGNS">>, <<"apex", "SIGSOA">>>>,
